@@ -276,6 +276,7 @@ class C09(BaseCheck):
         # modes) and a host application that promotes warnings to errors
         cfg = rng.stream(run_seed, 'config')
         case['pint'] = cfg.random() < 0.15
+        case['mode_as'] = cfg.choice(['const', 'const', 'zinc', 'ZINC', 'text/zinc'])     # every spelling of the mode the API accepts
         case['warn_error'] = cfg.random() < 0.06
         if k.random() < 0.08:
             case['stdout_fault'] = {'kind': k.choice(['epipe', 'enospc', 'closed', 'ascii']), 'at': k.randrange(1, 4)}
@@ -388,14 +389,15 @@ class C09(BaseCheck):
             except UnicodeEncodeError:
                 arg = text      # not representable in that charset: delivered as text
         res = {'outcome': None}
+        mode = hs.MODE_ZINC if case.get('mode_as', 'const') == 'const' else case['mode_as']
         signal.setitimer(signal.ITIMER_REAL, 60.0)
         try:
             if case['class'] == 'scalar':
-                v = hs.parse_scalar(arg, mode=hs.MODE_ZINC, version=case['ver'], **kw)
+                v = hs.parse_scalar(arg, mode=mode, version=case['ver'], **kw)
                 res['outcome'] = 'value'
                 res['repr'] = type(v).__name__
             else:
-                g = hs.parse(arg, mode=hs.MODE_ZINC, single=case.get('single', True), **kw)
+                g = hs.parse(arg, mode=mode, single=case.get('single', True), **kw)
                 res['outcome'] = 'grid'
                 res['repr'] = 'None' if g is None else (len(g) if isinstance(g, list) and not isinstance(g, hs.Grid) else 1)
         except ClockExpired:
